@@ -167,6 +167,21 @@ func (g *goFn) scalar(e ast.Expr, root string) (string, string, bool) {
 		}
 		return "", "", false
 	}
+	// new(big.Int).SetUint64(root.path): the cast-free conversion (not used by the current tree)
+	if c, ok := e.(*ast.CallExpr); ok && len(c.Args) == 1 {
+		if s, ok := c.Fun.(*ast.SelectorExpr); ok && s.Sel.Name == "SetUint64" {
+			if n, ok := s.X.(*ast.CallExpr); ok && len(n.Args) == 1 {
+				if f, ok := n.Fun.(*ast.Ident); ok && f.Name == "new" {
+					if p, q, ok := sel(n.Args[0]); ok && p == "big" && q == "Int" {
+						if fp, ok := fieldPath(c.Args[0], root); ok {
+							return "CU64", fp, true
+						}
+					}
+				}
+			}
+			return "", "", false
+		}
+	}
 	// gethcommon.HexToAddress(root.path)
 	for _, pkg := range []string{"gethcommon", "common"} {
 		if c, ok := isCall(e, pkg, "HexToAddress"); ok && len(c.Args) == 1 {
